@@ -218,7 +218,7 @@ theorem kwargs_exact (txAttrs assigned extras : List String) (contained : Bool)
     (hp : "parent" ∉ txAttrs) (hpos : "_tx_position" ∉ txAttrs) (hend : "_tx_position_end" ∉ txAttrs)
     (ha : ∀ k, k ∈ assigned → k ∈ txAttrs)
     (he : ∀ k, k ∈ extras → k ∉ txAttrs ∧ k ≠ "parent") :
-    kwargs txAttrs (collected txAttrs assigned contained extras) =
+    kwargs txAttrs contained (collected txAttrs assigned contained extras) =
       txAttrs ++ (if contained then ["parent"] else []) := by
   have e1 : set "_tx_position" txAttrs = txAttrs ++ ["_tx_position"] := set_of_not_mem hpos
   have e2 : set "_tx_position_end" (txAttrs ++ ["_tx_position"]) =
@@ -230,10 +230,10 @@ theorem kwargs_exact (txAttrs assigned extras : List String) (contained : Bool)
   have e4 : assigned.foldl (fun d k => set k d) (txAttrs ++ ["_tx_position"] ++ ["_tx_position_end"]) =
       txAttrs ++ ["_tx_position"] ++ ["_tx_position_end"] := fold_sub assigned _ (fun k hk => by simp [ha k hk])
   simp only [collected, e0, e1, e2, e4]
-  have hkeep : (txAttrs.filter fun k => txAttrs.contains k || k == "parent") = txAttrs :=
+  have hkeep : (txAttrs.filter fun k => txAttrs.contains k || (k == "parent" && contained)) = txAttrs :=
     List.filter_eq_self.2 (fun k hk => by simp [hk])
   have hdrop : ∀ Y : List String, (∀ y, y ∈ Y → y ∈ extras) →
-      (Y.filter fun k => txAttrs.contains k || k == "parent") = [] := fun Y hY =>
+      (Y.filter fun k => txAttrs.contains k || (k == "parent" && contained)) = [] := fun Y hY =>
     List.filter_eq_nil_iff.2 (fun y hy => by
       have := he y (hY y hy)
       simp [this.1, this.2])
@@ -250,6 +250,63 @@ theorem kwargs_exact (txAttrs assigned extras : List String) (contained : Bool)
     rw [h1]
     simp only [kwargs, List.filter_append, hkeep, hdrop Y h2]
     simp [hpos, hend]
+
+/-! ### stores and deletions of user code on an object under construction -/
+
+theorem kwargs_set (txAttrs d : List String) (c : Bool) (k : String) (T : List String) (h : kwargs txAttrs c d = T)
+    (hk : (txAttrs.contains k || (k == "parent" && c)) = true → k ∈ T) : kwargs txAttrs c (set k d) = T := by
+  by_cases hm : k ∈ d
+  · rw [set_of_mem hm]; exact h
+  · rw [set_of_not_mem hm]
+    have hP : (txAttrs.contains k || (k == "parent" && c)) = false := by
+      cases hc : (txAttrs.contains k || (k == "parent" && c)) with
+      | false => rfl
+      | true =>
+        have : k ∈ kwargs txAttrs c d := by rw [h]; exact hk hc
+        exact absurd (List.mem_filter.1 this).1 hm
+    simp only [kwargs, List.filter_append, List.filter_cons, List.filter_nil, hP] at h ⊢
+    simpa using h
+
+theorem kwargs_del (txAttrs d : List String) (c : Bool) (k : String) (T : List String) (h : kwargs txAttrs c d = T)
+    (hk : k ∉ T) : kwargs txAttrs c (del k d) = T := by
+  have e : kwargs txAttrs c (del k d) = (kwargs txAttrs c d).filter fun x => x != k := by
+    simp only [kwargs, del, List.filter_filter]
+    congr 1
+    funext x
+    exact Bool.and_comm _ _
+  rw [e, h]
+  exact List.filter_eq_self.2 (fun x hx => by
+    have : x ≠ k := fun e => hk (e ▸ hx)
+    simpa using this)
+
+/-- whatever harmless stores / deletions user code performs on the object, the constructor arguments stay the same -/
+theorem kwargs_ops (txAttrs : List String) (contained : Bool) (ops : List Op) (d : List String)
+    (h : kwargs txAttrs contained d = txAttrs ++ (if contained then ["parent"] else []))
+    (ho : ∀ o, o ∈ ops → o.harmless txAttrs contained) :
+    kwargs txAttrs contained (ops.foldl (fun d o => o.apply d) d) =
+      txAttrs ++ (if contained then ["parent"] else []) := by
+  induction ops generalizing d with
+  | nil => exact h
+  | cons o ops ih =>
+    simp only [List.foldl_cons]
+    refine ih _ ?_ (fun o' ho' => ho o' (by simp [ho']))
+    have hh := ho o (by simp)
+    cases o with
+    | set k =>
+      refine kwargs_set txAttrs d contained k _ h (fun hc => ?_)
+      simp only [Bool.or_eq_true, Bool.and_eq_true, List.contains_iff_mem, beq_iff_eq] at hc
+      rcases hc with hc | ⟨hc, hcont⟩
+      · simp [hc]
+      · simp [hcont, hc]
+    | del k =>
+      refine kwargs_del txAttrs d contained k _ h ?_
+      have h1 : k ∉ txAttrs := hh.1
+      have h2 : k = "parent" → contained = false := hh.2
+      cases hcont : contained with
+      | false => simp [h1]
+      | true =>
+        have : k ≠ "parent" := fun e => by simp [h2 e] at hcont
+        simp [h1, this]
 
 end Kw
 
